@@ -12,6 +12,9 @@ import (
 )
 
 //vp:all stub net.DialTimeout = vpDial
+//vp:all stub net.Dial = vpDial2
+//vp:all stub (*net.Dialer).Dial = vpDialerDial
+//vp:all stub (*net.Dialer).DialContext = vpDialerDialContext
 
 // ghost state of the environment stubs (reset by every harness)
 var (
@@ -52,6 +55,15 @@ func vpDial(network, address string, timeout time.Duration) (net.Conn, error) {
 	}
 	vpDialConns = append(vpDialConns, c)
 	return c, nil
+}
+
+// equivalent ways of opening the backend connection share the same environment model
+func vpDial2(network, address string) (net.Conn, error) { return vpDial(network, address, 0) }
+func vpDialerDial(d *net.Dialer, network, address string) (net.Conn, error) {
+	return vpDial(network, address, d.Timeout)
+}
+func vpDialerDialContext(d *net.Dialer, ctx context.Context, network, address string) (net.Conn, error) {
+	return vpDial(network, address, d.Timeout)
 }
 
 func vpCallback(kind string) func(context.Context, string) (bool, error) {
